@@ -62,6 +62,7 @@ private:
     bool ensure_storage_directory();
     bool persist_chunk_to_disk(const std::string& key, const ChunkRecord& record);
     bool secure_wipe_file(const std::filesystem::path& path) const;
+    void purge_orphaned_chunk_files() const;
     void wipe_persisted_chunk(const ChunkRecord& record);
 };
 
